@@ -698,6 +698,7 @@ impl Vrps {
                                 error!(
                                     "Restarted run failed again. Aborting."
                                 );
+                                return Err(ExitError::Generic)
                             }
                             if engine.sanitize().is_ok() {
                                 once = true;
